@@ -267,3 +267,98 @@ def fill_deck(rnd, depth=1, reuse=False, spelling=None, inner='slab', nsym=3):
     new_cell(expr=('and',) + rest if len(rest) > 1 else rest[0], imp=0)
     # order cells: MCNP does not care; keep creation order
     return d, pre
+
+
+# ------------------------------------------------------------------ LIKE n BUT
+def like_deck(rnd, scenario, nsym=3):
+    d = dk.Deck()
+    pre = []
+    bud = Budget(rnd, nsym)
+    nm = [0]
+
+    def mat():
+        nm[0] += 1
+        rho = rnd.choice(['-2.7', '-1.0', '0.05', '-7.8'])
+        d.mats[nm[0]] = [('13027', '1.0')] if rho.startswith('-') else [('1001', '2'), ('8016', '1')]
+        return nm[0], rho
+
+    def but_random(allow):
+        b = {}
+        for k in allow:
+            if rnd.random() < 0.6:
+                if k == 'mat':
+                    m, rho = mat()
+                    b['mat'] = str(m)
+                    b['rho'] = rho
+                elif k == 'rho':
+                    b['rho'] = rnd.choice(['-3.1', '-0.5', '1.5'])
+                elif k == 'trcl':
+                    b['trcl'] = rand_tr(rnd, 'k%d' % len(d.cells), pre, budget=bud, rot=rnd.random() < 0.4)
+                elif k == 'imp':
+                    b['imp'] = bud.num('imp%d' % len(d.cells), pre, choices=[0, 0, 1, 2])
+                    if isinstance(b['imp'], RatFn) and b['imp'].as_const() is None:
+                        pre.append(b['imp'].z3_cmp('>='))
+        return b
+    r = bud.num('r', pre, positive=True, choices=[1, Fr(3, 2)])
+    if scenario in ('level0', 'chain'):
+        d.surfs = [dk.Surf(1, 'so', [r])]
+        m, rho = mat() if rnd.random() < 0.7 else (0, None)
+        d.cells.append(dk.Cell(1, ('s', -1), mat=m, rho=rho, imp=rnd.choice([1, 1, 2])))
+        allow = ['trcl', 'imp'] + (['mat'] if True else []) + (['rho'] if m else [])
+        b = but_random(allow)
+        if 'trcl' not in b:
+            b['trcl'] = rand_tr(rnd, 'k1', pre, budget=bud, rot=False)
+        d.cells.append(dk.Cell(2, like=1, but=b))
+        ids = [1, 2]
+        if scenario == 'chain':
+            b3 = but_random(['trcl', 'imp', 'rho'] if (m or 'mat' in b) else ['trcl', 'imp'])
+            if 'trcl' not in b3:
+                b3['trcl'] = rand_tr(rnd, 'k2', pre, budget=bud, rot=False)
+            d.cells.append(dk.Cell(3, like=2, but=b3))
+            ids.append(3)
+        d.cells.append(dk.Cell(len(ids) + 1, ('and',) + tuple(('cell', i) for i in ids), imp=0))
+    elif scenario == 'universe':
+        # copies inside a universe, container at level 0
+        d.surfs = [dk.Surf(1, 'so', [Fr(5)]), dk.Surf(2, 's', [Fr(0), Fr(0), Fr(0), r])]
+        d.cells.append(dk.Cell(1, ('s', -1), imp=1, fill=1))
+        m, rho = mat()
+        d.cells.append(dk.Cell(2, ('s', -2), mat=m, rho=rho, imp=1, u=1))
+        b = but_random(['mat', 'rho'])
+        b['trcl'] = rand_tr(rnd, 'k1', pre, budget=bud, rot=False)
+        d.cells.append(dk.Cell(3, like=2, but=b))
+        d.cells.append(dk.Cell(4, ('and', ('cell', 2), ('cell', 3)), imp=1, u=1))
+        d.cells.append(dk.Cell(5, ('s', 1), imp=0))
+    elif scenario == 'fill':
+        # the base is a filled container; the copy changes the fill / its placement
+        d.surfs = [dk.Surf(1, 'so', [r]), dk.Surf(2, 'px', [bud.num('a', pre)]), dk.Surf(3, 'py', [bud.num('b', pre)])]
+        d.cells.append(dk.Cell(1, ('s', -1), imp=1, fill=1))
+        m1, r1 = mat()
+        m2, r2 = mat()
+        d.cells.append(dk.Cell(2, ('s', -2), mat=m1, rho=r1, imp=1, u=1))
+        d.cells.append(dk.Cell(3, ('s', 2), mat=m2, rho=r2, imp=1, u=1))
+        d.cells.append(dk.Cell(4, ('s', -3), mat=m2, rho=r2, imp=1, u=2))
+        d.cells.append(dk.Cell(5, ('s', 3), mat=m1, rho=r1, imp=1, u=2))
+        b = {'trcl': rand_tr(rnd, 'k1', pre, budget=bud, rot=rnd.random() < 0.3)}
+        choice = rnd.choice(['fill', 'filltr', 'both', 'none'])
+        if choice in ('fill', 'both'):
+            b['fill'] = 2
+        if choice in ('filltr', 'both'):
+            b.setdefault('fill', 1)
+            b['filltr'] = rand_tr(rnd, 'g', pre, budget=bud, rot=False)
+        if rnd.random() < 0.4:
+            b['imp'] = Fr(rnd.choice([0, 1]))
+        d.cells.append(dk.Cell(6, like=1, but=b))
+        d.cells.append(dk.Cell(7, ('and', ('cell', 1), ('cell', 6)), imp=0))
+    elif scenario == 'u':
+        # the copy is moved into a universe
+        d.surfs = [dk.Surf(1, 'so', [r]), dk.Surf(2, 'so', [Fr(4)]), dk.Surf(3, 'so', [Fr(9)])]
+        m, rho = mat()
+        d.cells.append(dk.Cell(1, ('s', -1), mat=m, rho=rho, imp=1))
+        d.cells.append(dk.Cell(2, like=1, but={'u': 1}))
+        d.cells.append(dk.Cell(3, ('s', 1), imp=1, u=1))
+        d.cells.append(dk.Cell(4, ('and', ('s', 2), ('s', -3)), imp=1, fill=1,
+                               filltr=rand_tr(rnd, 'g', pre, budget=bud, rot=False)))
+        d.cells.append(dk.Cell(5, ('or', ('and', ('s', 1), ('s', -2)), ('s', 3)), imp=0))
+    else:
+        raise ValueError(scenario)
+    return d, pre
